@@ -83,7 +83,7 @@ def make_ss_tcp_job(N, kind, mode, tier, nseg):
         site = case.fn.name + '@framed'
         nquiet = 0
         for p, rel, end in results:
-            ctx.absorb(ex, [p])
+            ctx.absorb(ex, [p], replay_of=(lambda v: rp(v.model or {})) if rp else None)
             if end == 'calls':
                 ctx.out.inconclusive.append('decode call bound reached')
                 continue
@@ -163,7 +163,7 @@ def make_vmess_body_job(security, chunk, padding, side, tier, nseg, packet=False
         site = fn.name + '@framed'
         nquiet = 0
         for p, rel, end in results:
-            ctx.absorb(ex, [p])
+            ctx.absorb(ex, [p], replay_of=(lambda v: rp(v.model or {})) if rp else None)
             if end == 'calls':
                 ctx.out.inconclusive.append('decode call bound reached')
             elif end == 'err':
@@ -257,7 +257,7 @@ def make_vmess_server_job(security, chunk, padding, command, tier, nseg):
         want_first = 'ConnectTcp' if command == 'TCP' else 'RelayUdp'
         nquiet = 0
         for p, rel, end in results:
-            ctx.absorb(ex, [p])
+            ctx.absorb(ex, [p], replay_of=(lambda v: rp(v.model or {})) if rp else None)
             if end == 'calls':
                 ctx.out.inconclusive.append('decode call bound reached')
             elif end == 'err':
